@@ -78,6 +78,25 @@ Report(a, fail, kind) ==
        /\ Log([act |-> "Report", a |-> a, fail |-> fail, kind |-> kind, to |-> to])
   /\ UNCHANGED <<now, issued, stopped>>
 
+\* a report is on its way to the subscribers one after the other (or concurrently) when something else happens: another
+\* request is served (Unsubscribe of j) or time passes (Tick).  Which subscriber is served first is the manager's
+\* choice; every OTHER subscriber is sent the notification only if its subscription is still live at ITS send time.
+ValidAt(s, t) == s.known /\ ~s.ended /\ (s.dur - (t - s.started)) > 0 /\ s.errors < MaxErrors
+ReportDuring(a, evk, j) ==
+  /\ Go /\ (evk = "Tick" => j = 1)
+  /\ LET to == {i \in Ids : Alive(i) /\ a \in subs[i].filter}
+         subs1 == IF evk = "Unsubscribe" /\ subs[j].known THEN [subs EXCEPT ![j].unsub = TRUE, ![j].unsubAt = now] ELSE subs
+         now1 == IF evk = "Tick" THEN now + 1 ELSE now
+         AliveAfter(i) == ValidAt(subs1[i], now1) /\ ~subs1[i].unsub
+     IN /\ to # {}
+        /\ \E first \in to :
+             LET got == {first} \cup {i \in to \ {first} : AliveAfter(i)} IN
+             /\ wire' = wire \o [n \in 1..Cardinality(got) |-> a]
+             /\ subs' = [i \in Ids |-> IF i \in got THEN [subs1[i] EXCEPT !.errors = 0] ELSE subs1[i]]
+             /\ now' = now1
+             /\ Log([act |-> "ReportDuring", a |-> a, ev |-> evk, j |-> j, first |-> first, to |-> got])
+  /\ UNCHANGED <<issued, stopped>>
+
 Housekeeping ==
   /\ Go
   /\ subs' = [i \in Ids |-> IF subs[i].known /\ (~Valid(subs[i]) \/ (subs[i].unsub /\ now > subs[i].unsubAt + 1))
@@ -99,6 +118,7 @@ Next == \/ \E c \in Clients, f \in Filters, req \in ReqVals, e \in BOOLEAN : Sub
         \/ Tick \/ Housekeeping
         \/ \E a \in Actions, fail \in SUBSET Clients, k \in {"http_error", "refused", "timeout"} :
               (fail = {} => k = "http_error") /\ Report(a, fail, k)
+        \/ \E a \in Actions, evk \in {"Unsubscribe", "Tick"}, j \in Ids : ReportDuring(a, evk, j)
         \/ \E b \in BOOLEAN : Stop(b)
 
 Spec == Init /\ [][Next]_vars
@@ -107,6 +127,13 @@ Spec == Init /\ [][Next]_vars
 GrantedOK == \A i \in Ids : subs[i].known => (subs[i].dur >= 1 /\ subs[i].dur <= MaxDur)
 NeverAfterUnsub == [][\A a \in Actions, f \in SUBSET Clients, k \in {"http_error", "refused", "timeout"} :
                         Report(a, f, k) => Len(wire') - Len(wire) = Cardinality({i \in Ids : Alive(i) /\ a \in subs[i].filter})]_vars
+\* whoever is sent a notification was live when the report started; everyone but one was live when the event was over
+SentOnlyWhileLive == [][\A a \in Actions, evk \in {"Unsubscribe", "Tick"}, j \in Ids :
+                          ReportDuring(a, evk, j) =>
+                             LET before == {i \in Ids : Alive(i) /\ a \in subs[i].filter}
+                                 after == {i \in before : subs'[i].known /\ ~subs'[i].unsub /\ ValidAt(subs'[i], now')}
+                                 n == Len(wire') - Len(wire)
+                             IN n >= 1 /\ n <= Cardinality(after) + 1 /\ n >= Cardinality(after)]_vars
 UnknownChangesNothing == [][\A i \in Ids : (~subs[i].known /\ (GetStatus(i) \/ Unsubscribe(i) \/ (\E r \in ReqVals : Renew(i, r))))
                               => subs' = subs]_vars
 TypeOK == now \in Nat /\ issued \in 0..Cardinality(Ids)
